@@ -61,6 +61,7 @@ def main(tier):
     nontrivial = set()
     samples = []
     dist = {"triggered": 0, "window_not_full": 0, "unmonitored": 0, "below": 0, "detected": 0}
+    coord_stats = {}
     orig_random = GD.random
     if info.get("build_ok") and info.get("tables"):
         rng = random.Random(7919 * seed() + 17)
@@ -148,6 +149,21 @@ def main(tier):
                 if r != m["detected"] or r != want:
                     V.fail(f"draw:{a.type.value}", f"with the threshold condition met, roll={roll!r} and p={p}: real={r}, model={m['detected']}, roll<p is {want}",
                            {"hist": [x.as_dict for x in h], "act": a.as_dict, "tw": tw, "roll": roll, "p": str(p)})
+            # coordinator integration: detected => Fail (after the goal check, before the step limit) => end => fail reward
+            GD.random = orig_random
+            from . import check_coord as CC
+
+            def cfail(tags, sig, desc, rep):
+                if "C17" in tags:
+                    V.fail("coord:" + sig, desc, rep)
+
+            def cfg_gen(r):
+                cfg = CC.gen_config(r)
+                cfg["env"]["use_global_defender"] = True
+                cfg["coordinator"]["agents"]["Attacker"]["max_steps"] = r.choice([5, 6, 7, 8, 10])
+                return cfg
+            CC.run_sessions(drv, rng, tabs, cfail, coord_stats, 40 if tier == "quick" else 400, 45,
+                            {"bad": 0.01, "leave": 0.02, "roles": ["Attacker", "Attacker", "Defender"]}, cfg_gen=cfg_gen)
         finally:
             GD.random = orig_random
             drv.close()
@@ -159,7 +175,7 @@ def main(tier):
            "evaluations": evals, "distinct_nontrivial": len(nontrivial),
            "rule": "exhaustive (history, action, window) over an 8-action alphabet up to the length bound plus random long histories over 13 actions, roll 0; then five rolls around p on triggered cases; non-trivial = window full, type monitored and threshold condition met (distinct by type, window size, window contents)",
            "samples": samples, "distribution": dist, "traces_validated_against_impl": evals,
-           "exhaustive": False, "generated_tables": (info.get("tables") or {}).get("defender"),
+           "coordinator_session_events": coord_stats.get("events", 0), "exhaustive": False, "generated_tables": (info.get("tables") or {}).get("defender"),
            "proof_failures": V.proof_failures}
     write_evidence("C17", tier, "proof", cov, T.s(), nviol,
                    ["the coordinator-level clause (detected => Fail => end => fail reward) is checked with C04/C05 sessions",
